@@ -14,6 +14,13 @@ Definition allowed_of (cl : pystr) : list pystr :=
 Definition mk_cfg (oidc revoke_on_issue : bool) : cfg :=
   mkCfg oidc allowed_of [Access; Refresh; IdTok] 300 600 [Access; Refresh; IdTok] 3600 300 43200 3600
         revoke_on_issue true.
+(* the boundary registration: the third client is allowed no scope at all (allowed_scopes = []), which is not the
+   same as having no allowed_scopes entry (= every scope the provider knows) *)
+Definition allowed_of_e3 (e3 : bool) (cl : pystr) : list pystr :=
+  if e3 && str_eqb cl (PS "client_12") then [] else allowed_of cl.
+Definition mk_cfg3 (oidc revoke_on_issue e3 : bool) : cfg :=
+  mkCfg oidc (allowed_of_e3 e3) [Access; Refresh; IdTok] 300 600 [Access; Refresh; IdTok] 3600 300 43200 3600
+        revoke_on_issue true.
 
 Definition opt_eqb {A} (e : A -> A -> bool) (x y : option A) : bool :=
   match x, y with Some a, Some b => e a b | None, None => true | _, _ => false end.
@@ -57,7 +64,7 @@ Definition snap_eqb (a b : snap) : bool :=
   list_eqb grant_eqb (fst a) (fst b) && list_eqb (list_eqb itok_eqb) (snd a) (snd b).
 
 (* a case: configuration, the operations with the implementation's outcomes, the implementation's final state *)
-Definition hist := (bool * bool * list (op * out) * snap)%type.
+Definition hist := (bool * bool * bool * list (op * out) * snap)%type.
 Fixpoint outs_ok (c : cfg) (s : st) (tr : list (op * out)) : bool * st :=
   match tr with
   | [] => (true, s)
@@ -65,8 +72,8 @@ Fixpoint outs_ok (c : cfg) (s : st) (tr : list (op * out)) : bool * st :=
                    if out_eqb x y then outs_ok c s1 r else (false, s1)
   end.
 Definition chk_hist (h : hist) : bool :=
-  let '(oidc, roi, tr, fin) := h in
-  let '(ok, s) := outs_ok (mk_cfg oidc roi) init tr in
+  let '(oidc, roi, e3, tr, fin) := h in
+  let '(ok, s) := outs_ok (mk_cfg3 oidc roi e3) init tr in
   ok && snap_eqb (snapshot s) fin.
 
 (* diagnostics: index of the first differing outcome and the model's outcome there, or the model's final state *)
@@ -77,8 +84,8 @@ Fixpoint first_diff (c : cfg) (s : st) (i : nat) (tr : list (op * out)) : option
                    if out_eqb x y then first_diff c s1 (S i) r else inl (Some (i, y))
   end.
 Definition diag_hist (h : hist) :=
-  let '(oidc, roi, tr, fin) := h in
-  match first_diff (mk_cfg oidc roi) init 0 tr with
+  let '(oidc, roi, e3, tr, fin) := h in
+  match first_diff (mk_cfg3 oidc roi e3) init 0 tr with
   | inl d => inl d
   | inr s => inr (snapshot s)
   end.
